@@ -162,7 +162,7 @@ class Run:
         err = None
         try:
             with core.quiet():
-                wl = W.WangLandauMachine(cfg["seq"], "/mem", frozenResidues=set(), nbins=cfg["nbins"], binmin=cfg["binmin"],
+                wl = W.WangLandauMachine(cfg["seq"], "/mem", frozenResidues=set(cfg.get("frozen", ())), nbins=cfg["nbins"], binmin=cfg["binmin"],
                                          binmax=cfg["binmax"], flatchk=cfg["flatchk"], flatcrit=cfg["flatcrit"],
                                          convergence=cfg["conv"])
                 orig_select = st["phase"]
@@ -404,6 +404,8 @@ def configs(tier):
                      conv=math.exp(0.6)))
     base.append(dict(name="KKEEGGGG/3bins[.2,.8]/p3/1upd", seq="KKEEGGGG", nbins=3, binmin=0.2, binmax=0.8, flatchk=3, flatcrit=0.3,
                      conv=math.exp(0.6)))
+    base.append(dict(name="KEKEGG/2bins[0,1]/p3/1upd/frozen{0,5}", seq="KEKEGG", nbins=2, binmin=0, binmax=1, flatchk=3, flatcrit=0.3,
+                     conv=math.exp(0.6), frozen=[0, 5]))
     if tier == "quick":
         return base
     more = [
@@ -529,7 +531,7 @@ def run(tier, seed, t0):
     return core.finish(
         PROP, tier, seed, acc, t0,
         rule="state = one complete Wang-Landau execution = (configuration, tape of answers to every random draw). %d configurations "
-             "(6-8 residue sequences; 1/2/4 bins over [0,1], [0,.5], [.5,1]; flat-check period 1-8; flatness .3/.5/.9; one to three "
+             "(6-8 residue sequences, one of them with frozen residues; 1/2/4 bins over [0,1], [0,.5], [.5,1]; flat-check period 1-8; flatness .3/.5/.9; one to three "
              "f-updates; one with f == threshold exactly) x base tapes derived from VERIF_SEED x ALL tapes within d deviations of the "
              "base tape (%s), horizon 400 choice points, retry bound inside a move. Menus: every value of every _randbelow (cap 12), "
              "one float inside each of the four move-selection intervals, both sides of the 0.5 coin, and for the acceptance draw "
